@@ -72,10 +72,20 @@ def shapes_check(p):
 
 def c01(p):
     fails, cases, distinct = [], 0, 0
+    jobs = []
     for job in p["jobs"]:
+        jobs.append(job)
+        if job.get("repeat"):
+            jobs.append(dict(job, regenerate=True))     # a second generation into the directory the first one filled
+    for job in jobs:
         runname, n, basis = job["runname"], job["n"], job.get("basis")
         b = basis_of(runname, basis)
-        err = ensure_lib(runname, n, basis)
+        if job.get("regenerate"):
+            r = stages.generate(runname, n, P=1, basis=basis)
+            ss, errs = stages.statuses(r)
+            err = None if all(s_ == "ok" for s_ in ss) else "second generation into the same directory did not complete: %s" % (errs or ["timeout"])[0][-500:]
+        else:
+            err = ensure_lib(runname, n, basis)
         cases += 1
         if err:
             fails.append({"job": job, "error": err})
